@@ -158,6 +158,7 @@ def check(pid, tier, replay=None):
             # size-only inputs (1.5 M repeated / 1.2 M nested constructed headers), each decode in a child process
             behs.append(dict(id="C16-deep", mode="deep", type="", params="", seed=0, n=1500000))
             behs.append(dict(id="C16-trailing", mode="trailing", type="", params="", seed=0))
+            behs.append(dict(id="C16-sizes", mode="sizes", type="", params="", seed=0))
             # concurrent decoding from the first moment of a process (fresh child processes)
             behs.append(dict(id="C16-cold", mode="cold", type="", params="", seed=core.seed(), n=8 if tier == "quick" else 40))
     else:
